@@ -111,9 +111,36 @@ func genReuse(r *sim.Rand) scenario {
 	return s
 }
 
+// genHeadTimesOut: the best waiter arrived first and times out while worse ones, that came later and in an order
+// that is not their priority order, are still waiting; the window opens right after. The waiting structure loses
+// its head from the middle of a history and must still hand out the best of the rest.
+func genHeadTimesOut(r *sim.Rand) scenario {
+	s := scenario{QuotaMax: 1, WindowS: 2, Size: 8, TTLS: 1}
+	s.Arrivals = append(s.Arrivals, arrival{ID: "q0", AtMs: int64(r.Range(20, 60)), Prio: sim.Pick(r, []string{"hi", "lo"})})
+	s.Arrivals = append(s.Arrivals, arrival{ID: "q1", AtMs: int64(r.Range(860, 940)), Prio: "hi"})
+	at := int64(r.Range(1040, 1100))
+	n := r.Range(3, 5)
+	for i := 0; i < n; i++ {
+		prio := "p5"
+		if i > 0 {
+			prio = sim.Pick(r, []string{"mid", "lo", "p4", "mid"})
+		}
+		if at%100 == 0 {
+			at += 7
+		}
+		s.Arrivals = append(s.Arrivals, arrival{ID: fmt.Sprintf("q%d", i+2), AtMs: at, Prio: prio})
+		at += int64(r.Range(60, 160))
+	}
+	s.EndMs = at + (s.TTLS+s.WindowS)*1000 + 500
+	return s
+}
+
 func genScenario(r *sim.Rand, shutdown bool) scenario {
 	if !shutdown && r.Chance(1, 8) {
 		return genReuse(r)
+	}
+	if !shutdown && r.Chance(1, 8) {
+		return genHeadTimesOut(r)
 	}
 	s := scenario{QuotaMax: int64(r.Range(1, 2)), WindowS: int64(r.Range(1, 2)), Size: int64(r.Range(1, 4)), TTLS: int64(r.Range(1, 2))}
 	if !shutdown && r.Chance(1, 3) {
